@@ -1,6 +1,6 @@
 (* C24 — Topic aliases are always resolvable by the receiver.
    Statements only; proofs are [exact lemma] or vm_compute witnesses. *)
-From MV Require Import Base.Val Session.Pkt Session.Alias Session.AliasProofs.
+From MV Require Import Base.Val Session.Pkt Session.Alias Session.AliasProofs Session.AliasSched Session.AliasSchedProofs.
 Open Scope N_scope.
 
 (* Outbound.  [out_run (oinit max) evs] is the stream of PUBLISH packets (topic the message belongs
@@ -53,6 +53,47 @@ Theorem C24_in : forall (smax : N) (evs : list (bytes * N)),
   in_run (iinit smax) evs = spec_run smax [] evs.
 Proof. exact in_is_spec_init. Qed.
 
+(* Concurrent publishers.  A schedule is any list of the atomic steps of any number of publisher
+   goroutines delivering to one subscriber connection: [SSet k topic] = publisher k's call of
+   OutboundTopicAliases.Set (lookup + allocation under the table's lock: ONE atomic step, tied to the
+   code by the forced schedules of the `aliassched` engine: a second allocator never gets inside while
+   one is parked there) and [SPush k] = its packet entering the pending-writes queue. *)
+
+(* under EVERY schedule the table is injective (no alias is given to two topics), aliases stay within
+   the client's maximum *)
+Theorem C24_sched_table_injective : forall (max : N) (evs : list sev),
+  let t := s_tab (srun max evs) in
+  injective t /\ (forall tp a, lookup_t tp (o_map t) = Some a -> 0 < a <= max).
+Proof.
+  intros max evs t. destruct (sched_table_ok max evs) as [(Hc & Hr & Hi) Hm]. fold t in Hc, Hr, Hi, Hm.
+  split; [exact Hi|]. intros tp a H. specialize (Hr _ _ H). rewrite <- Hm. split; [apply Hr|].
+  apply N.le_trans with (o_cursor t); [apply Hr|exact Hc].
+Qed.
+
+(* under every schedule without the overtaking finding, every PUBLISH on the connection has a topic or
+   an alias bound earlier on this connection to that topic *)
+Theorem C24_sched_modulo_findings : forall (max : N) (evs : list sev),
+  topics_nonempty evs -> skf_free (sinit max) evs = true ->
+  recv_ok max [] (s_wire (srun max evs)) = true.
+Proof. exact sched_resolvable. Qed.
+
+(* refutation (C24-4): publisher 1 queues its alias-only PUBLISH before publisher 0, which allocated
+   the alias, has queued the PUBLISH that announces it *)
+Theorem C24_sched_refuted_overtaken : exists (max : N) (evs : list sev),
+  topics_nonempty evs /\ recv_ok max [] (s_wire (srun max evs)) = false /\ skf_free (sinit max) evs = false.
+Proof.
+  exists 4, [SSet 0 (tag "q0/a"); SSet 1 (tag "q0/a"); SPush 1; SPush 0]. split.
+  - intros k tp [H|[H|[H|[H|[]]]]]; inversion H; discriminate.
+  - vm_compute. split; reflexivity.
+Qed.
+
+(* the seeded variant of Set (lookup and cursor read before the write lock is taken) is not atomic:
+   two publishers read the same cursor and two topics get alias 1 *)
+Theorem C24_split_set_not_injective : exists (evs : list xev),
+  let t := x_tab (fold_left xstep evs {| x_tab := oinit 8; x_read := [] |}) in
+  lookup_t (tag "q0/a") (o_map t) = Some 1 /\ lookup_t (tag "q0/b") (o_map t) = Some 1.
+Proof. exists [XRead 0 (tag "q0/a"); XRead 1 (tag "q0/b"); XWrite 0; XWrite 1]. vm_compute. split; reflexivity. Qed.
+
 (* non-vacuity *)
 Example C24_out_nonvacuous :
   let evs := [EQueue (tag "a") true; EQueue (tag "b") true; EQueue (tag "a") true; EQueue (tag "c") false;
@@ -72,3 +113,7 @@ Print Assumptions C24_out_modulo_findings.
 Print Assumptions C24_out_alias_bounded.
 Print Assumptions C24_out_refuted.
 Print Assumptions C24_in.
+Print Assumptions C24_sched_table_injective.
+Print Assumptions C24_sched_modulo_findings.
+Print Assumptions C24_sched_refuted_overtaken.
+Print Assumptions C24_split_set_not_injective.
